@@ -79,25 +79,25 @@ def run(eng, tier):
                 pos = p.pos(f)
                 ok = pos is not None and (fw is None or pos < fw)
                 eng.ob(ok, PROP, 'guard', '%s:%s' % (name, fact_key(f)), 'a match succeeds on a path that does not establish %s: %s' % (name, fact_key(f)),
-                       detail=p.describe(), sample={'rule': 'guard', 'condition': name, 'fact': fact_key(f)})
+                       where=p, detail=p.describe(), sample={'rule': 'guard', 'condition': name, 'fact': fact_key(f)})
         for name, ns, idf in (('ask-on-book', 'ask', 'ask_id'), ('bid-on-book', 'bid', 'bid_id')):
             okb = any(all(p.pos(f) is not None and (fw is None or p.pos(f) < fw) for f in alt) for alt in on_book_facts(ns, M(V_, idf)))
-            eng.ob(okb, PROP, 'guard', name, 'a match succeeds on a path that does not establish that the %s named by the request is on the book' % ns, detail=p.describe())
+            eng.ob(okb, PROP, 'guard', name, 'a match succeeds on a path that does not establish that the %s named by the request is on the book' % ns, where=p, detail=p.describe())
         # approval state: plain, or convertible and Ready
         cls = p.variant_of(CLASS)
         ok = cls == 'Basic' or (cls == 'Convertible' and p.variant_of(STATUS) == 'Ready')
-        eng.ob(ok, PROP, 'guard', 'ask-not-pending', 'a match succeeds on a path where the ask is not known to be plain or approved (class=%s status=%s)' % (cls, p.variant_of(STATUS)), detail=p.describe())
+        eng.ob(ok, PROP, 'guard', 'ask-not-pending', 'a match succeeds on a path where the ask is not known to be plain or approved (class=%s status=%s)' % (cls, p.variant_of(STATUS)), where=p, detail=p.describe())
         # R-order over the three prices
         ords, cons = orderings_of(p, [PA, PB, PE])
         for r in ords:
             accepted.add(r)
             eng.ob(allowed_ordering(r), PROP, 'order', 'ranks(ask,bid,exec)=%s' % (r,),
-                   'a match is accepted under the price ordering ranks(ask,bid,exec)=%s, which the limit-price rule forbids' % (r,), detail=p.describe(),
+                   'a match is accepted under the price ordering ranks(ask,bid,exec)=%s, which the limit-price rule forbids' % (r,), where=p, detail=p.describe(),
                    sample={'rule': 'order', 'ranks_ask_bid_exec': r, 'constraints': [(c[0], K(c[1]), K(c[2])) for c in cons]})
         improved = bool(ords) and all(r[2] < r[1] for r in ords)
         if improved:
             f = ('val', EQ(('fract', OGROSS), I(0)), True)
-            eng.ob(p.pos(f) is not None, PROP, 'guard', 'bid-total-integral-when-improved', 'a match at an improved price succeeds without establishing that size x bid price is whole', detail=p.describe())
+            eng.ob(p.pos(f) is not None, PROP, 'guard', 'bid-total-integral-when-improved', 'a match at an improved price succeeds without establishing that size x bid price is whole', where=p, detail=p.describe())
     want = set(r for r in weak_orderings(3) if allowed_ordering(r))
     eng.ob(accepted == want, PROP, 'order-converse', 'accepted-set', 'the set of price orderings under which a match can succeed is %s, expected exactly %s' % (sorted(accepted), sorted(want)))
     # R-refusal (converse): no refusal beyond the stated conditions
